@@ -84,6 +84,10 @@ pub enum Item {
     Text(String),
     /// literal CDATA content (no "]]>"), may be empty
     CData(String),
+    /// character data written verbatim: may hold references to the entity `e`, which the serializer
+    /// declares in an internal DTD subset whenever a document holds such an item (well-formed XML
+    /// that a non-validating reader passes through as raw text)
+    RawText(String),
     Comment(String),
     PI(String),
 }
@@ -125,13 +129,20 @@ impl Elem {
     pub fn has_text_node(&self) -> bool {
         self.items
             .iter()
-            .any(|i| matches!(i, Item::Text(_) | Item::CData(_)))
+            .any(|i| matches!(i, Item::Text(_) | Item::CData(_) | Item::RawText(_)))
     }
     /// character data that a consumer cannot ignore: any CDATA node or text with a non-whitespace char
     pub fn has_significant_text(&self) -> bool {
         self.items.iter().any(|i| match i {
-            Item::CData(_) => true,
+            Item::CData(_) | Item::RawText(_) => true,
             Item::Text(t) => t.chars().any(|c| !c.is_whitespace()),
+            _ => false,
+        })
+    }
+    pub fn has_raw_text(&self) -> bool {
+        self.items.iter().any(|i| match i {
+            Item::RawText(_) => true,
+            Item::Elem(e) => e.has_raw_text(),
             _ => false,
         })
     }
@@ -140,7 +151,7 @@ impl Elem {
         let mut s = String::new();
         for i in &self.items {
             match i {
-                Item::Text(t) | Item::CData(t) => s.push_str(t),
+                Item::Text(t) | Item::CData(t) | Item::RawText(t) => s.push_str(t),
                 _ => {}
             }
         }
@@ -346,6 +357,7 @@ pub fn write_elem(e: &Elem, s: &Surface, r: &mut Rng, out: &mut String) {
         match it {
             Item::Elem(c) => write_elem(c, s, r, out),
             Item::Text(t) => escape_text(t, r, s.fancy, out),
+            Item::RawText(t) => out.push_str(t),
             Item::CData(c) => {
                 out.push_str("<![CDATA[");
                 out.push_str(c);
@@ -371,7 +383,9 @@ pub fn write_doc(d: &Doc, s: &Surface) -> String {
             out.push('\n');
         }
     }
-    let mut doctype_done = d.doctype == 0;
+    // raw text may refer to the entity `e`: the internal subset that declares it is then mandatory
+    let doctype_kind = if d.root.has_raw_text() { 2 } else { d.doctype };
+    let mut doctype_done = doctype_kind == 0;
     let dt = |out: &mut String, name: &str, kind: u8| {
         if kind == 1 {
             out.push_str(&format!("<!DOCTYPE {}>", name));
@@ -386,7 +400,7 @@ pub fn write_doc(d: &Doc, s: &Surface) -> String {
     let dt_at = if d.pre.is_empty() { 0 } else { r.below(d.pre.len() + 1) };
     for (i, it) in d.pre.iter().enumerate() {
         if !doctype_done && i == dt_at {
-            dt(&mut out, &d.root.name, d.doctype);
+            dt(&mut out, &d.root.name, doctype_kind);
             doctype_done = true;
         }
         write_misc(it, &mut out);
@@ -395,7 +409,7 @@ pub fn write_doc(d: &Doc, s: &Surface) -> String {
         }
     }
     if !doctype_done {
-        dt(&mut out, &d.root.name, d.doctype);
+        dt(&mut out, &d.root.name, doctype_kind);
         if s.fancy && r.chance(1, 2) {
             out.push('\n');
         }
@@ -465,7 +479,7 @@ pub fn pool_names(pool: Pool, for_attrs: bool) -> Vec<&'static str> {
             v.extend_from_slice(SEPARATORS);
             v.extend_from_slice(CASE_VARIANTS);
             v.extend_from_slice(SUFFIXY);
-            v.extend_from_slice(&["a", "b", "type", "Type", "p:a-b", "q:a_b"]);
+            v.extend_from_slice(&["a", "b", "A", "X", "type", "Type", "p:a-b", "q:a_b", "foo_1", "Foo_1", "a_b_1", "a-b-1", "item", "Item", "item_1", "x_attr_1"]);
         }
         Pool::Adversarial | Pool::Mixed | Pool::NoNamespace => {
             v.extend_from_slice(PLAIN);
@@ -638,6 +652,33 @@ impl<'a> HistoryGen<'a> {
         }
     }
 
+    /// long text with multi-byte characters at arbitrary byte offsets
+    fn long_text(&mut self) -> String {
+        let n = self.r.range(20, 160);
+        let mut s = String::new();
+        for _ in 0..n {
+            match self.r.below(12) {
+                0 => s.push('é'),
+                1 => s.push('日'),
+                2 => s.push('😀'),
+                3 => s.push(' '),
+                _ => s.push(*self.r.pick(&['x', 'y', 'z', '1', '.'])),
+            }
+        }
+        s
+    }
+
+    fn text_item(&mut self) -> Item {
+        if !self.p.unique_values && !self.p.calm_text {
+            match self.r.below(12) {
+                0 => return Item::RawText(self.r.pick(&["&e;", "a &e; b", "&e;&e;", "x&e;"]).to_string()),
+                1 => return Item::Text(self.long_text()),
+                _ => {}
+            }
+        }
+        Item::Text(self.text())
+    }
+
     fn text(&mut self) -> String {
         if self.p.unique_values {
             let v = self.value();
@@ -715,8 +756,8 @@ impl<'a> HistoryGen<'a> {
                     e.items.push(Item::Text(self.r.pick(WS).to_string()));
                 }
                 if sig_text_allowed && want_text && self.r.chance(1, 3) {
-                    let t = self.text();
-                    e.items.push(Item::Text(t));
+                    let t = self.text_item();
+                    e.items.push(t);
                 }
                 if sig_text_allowed && want_cdata && self.r.chance(1, 3) {
                     let t = self.text();
@@ -741,8 +782,8 @@ impl<'a> HistoryGen<'a> {
             }
         } else {
             if want_text {
-                let t = self.text();
-                e.items.push(Item::Text(t));
+                let t = self.text_item();
+                e.items.push(t);
                 if !self.p.calm_text && self.r.chance(1, 6) {
                     let m = self.misc();
                     e.items.push(m);
@@ -900,8 +941,10 @@ pub fn rewrite_incidental(d: &Doc, r: &mut Rng) -> Doc {
                         // whitespace stays whitespace (other whitespace)
                         items.push(Item::Text(if r.chance(1, 2) { t.clone() } else { "\n \t".to_string() }));
                     } else {
-                        match r.below(5) {
+                        match r.below(7) {
                             0 => items.push(Item::Text(t.clone())),
+                            5 => items.push(Item::RawText("now &e; raw".into())),
+                            6 => items.push(Item::Text("long text with multi-byte characters: ééééééééééééééééééééééééééééééééééééééééééééééééééééééééééééééééééééé 日日日日日日日日日日日日日日日日日日日".into())),
                             1 => items.push(Item::Text("replaced".into())),
                             2 => items.push(Item::CData("cdata <&> content".into())),
                             3 => {
@@ -916,6 +959,11 @@ pub fn rewrite_incidental(d: &Doc, r: &mut Rng) -> Doc {
                         }
                     }
                 }
+                Item::RawText(t) => match r.below(3) {
+                    0 => items.push(Item::RawText(t.clone())),
+                    1 => items.push(Item::Text("was raw".into())),
+                    _ => items.push(Item::CData("was raw".into())),
+                },
                 Item::CData(c) => match r.below(4) {
                     0 => items.push(Item::CData(c.clone())),
                     1 => items.push(Item::CData("z".into())),
